@@ -13,7 +13,7 @@ import (
 // C03 share ledger consistency, recomputed from raw records after every step.
 type monC03 struct{}
 
-func newMonC03() *monC03      { return &monC03{} }
+func newMonC03() *monC03       { return &monC03{} }
 func (m *monC03) Name() string { return "C03" }
 
 func (m *monC03) OnStep(r *Runner, st *Step) {
